@@ -3,7 +3,7 @@
 (* every trusted (level-0) arithmetic step as a one-step proof through theory.check_proof at the default       *)
 (* trust level:                                                                                                *)
 (*   [tid, key, src, goal (applied form), acc : accepted runs <<[m, h (hypotheses), c (conclusion)]>>,         *)
-(*    rej : refused runs <<<<m, exception, "rejected" | "raised">>>>]                                           *)
+(*    rej : steps that refused the goal, raised : <<<<m, exception class>>>> steps that raised a foreign one]   *)
 (* Clause (one per step, named True_<step>):                                                                   *)
 (*   the sequent the checker accepted is TRUE under the meaning C05_HolArith!Val at the types that occur in   *)
 (*   it, decided with exact arithmetic; a statement with free variables is refuted by one grid point           *)
@@ -23,11 +23,12 @@ Verdict(e, tg, r) ==
   ELSE IF r.c = Not(e.goal) \/ e.goal = Not(r.c) \/ r.c = Rel("equals", "bool", e.goal, FalseC) THEN NegT(tg)
   ELSE IF r.c = Rel("equals", "bool", e.goal, TrueC) THEN tg
   ELSE Truth(r.c)
-Verdicts(e) == LET tg == Truth(e.goal) IN [i \in 1..Len(e.acc) |-> Verdict(e, tg, e.acc[i])]
-ClausesOf(e, vs) == { "True_" \o e.acc[i].m : i \in { j \in 1..Len(e.acc) : vs[j] = "F" } }
-NontrivialOf(e, vs) == \E i \in 1..Len(e.acc) : vs[i] \in {"T", "F"}
-OffLabel(e, vs, i) == (vs[i] = "T" /\ ~InDomain(e.acc[i].m, e.goal)) \/ ~Asked(e.acc[i].m, e.goal, e.acc[i].c) \/ Len(e.acc[i].h) > 0
-DivergesOf(e, vs) == (\E i \in 1..Len(e.acc) : OffLabel(e, vs, i)) \/ (\E i \in 1..Len(e.rej) : e.rej[i][3] = "raised")
+\* an explicit (eagerly evaluated) set of pairs <<index of the accepted run, truth of its sequent>>
+Verdicts(e) == LET tg == Truth(e.goal) IN { <<i, Verdict(e, tg, e.acc[i])>> : i \in 1..Len(e.acc) }
+ClausesOf(e, vs) == { "True_" \o e.acc[p[1]].m : p \in { q \in vs : q[2] = "F" } }
+NontrivialOf(e, vs) == \E p \in vs : p[2] \in {"T", "F"}
+OffLabel(e, p) == LET r == e.acc[p[1]] IN (p[2] = "T" /\ ~InDomain(r.m, e.goal)) \/ ~Asked(r.m, e.goal, r.c) \/ Len(r.h) > 0
+DivergesOf(e, vs) == (\E p \in vs : OffLabel(e, p)) \/ Len(e.raised) > 0
 TNext == LET e == Trace[l]  vs == Verdicts(e) IN TStep(e.tid, ClausesOf(e, vs), NontrivialOf(e, vs), DivergesOf(e, vs))
 TSpec == TInit /\ [][TNext]_l
 =============================================================================
